@@ -369,6 +369,42 @@ func propC17(w *World, r *Report) {
 	ef.RunErrDrop(methods)
 	RunShortRead(w, r, w.LibFuncs())
 	r.Floor("shortread", 1)
+	// --- skipisseek: Discard is a relative seek
+	r.Rule("skipisseek: (*Parser).Discard never reads (no call that can reach ReadBytes or the underlying reader's Read) and every normal return passes the result of SeekPos: a skip moves the position and cannot fail for lack of input, exactly like the absolute seek to the same offset")
+	if dfn := w.Func("(*parser.Parser).Discard"); dfn == nil {
+		r.Fatal("(*parser.Parser).Discard does not resolve")
+	} else {
+		key := r.MkKey("skipisseek", fnName(dfn), "callees")
+		bad := ""
+		seeks := 0
+		for _, b := range dfn.Blocks {
+			for _, in := range b.Instrs {
+				c, ok := in.(*ssa.Call)
+				if !ok {
+					continue
+				}
+				cal := c.Call.StaticCallee()
+				switch {
+				case cal != nil && fnName(cal) == "(*parser.Parser).SeekPos":
+					seeks++
+				case cal != nil && (fnName(cal) == "(*parser.Parser).Pos" || fnName(cal) == "(*parser.Parser).Size"):
+				case cal == nil && c.Call.IsInvoke():
+					bad = "calls " + c.Call.Method.Name() + " on the underlying reader at " + w.Pos(c.Pos())
+				case cal != nil && strings.HasSuffix(fnPkgPath(cal), "/parser"):
+					bad = "calls " + fnName(cal) + " at " + w.Pos(c.Pos())
+				}
+			}
+		}
+		switch {
+		case bad != "":
+			r.Fail("skipisseek", key, w.Pos(dfn.Pos()), "Discard "+bad+": a skip that reads fails at the end of the input where the seek to the same offset succeeds, and leaves the position behind", nil)
+		case seeks == 0:
+			r.Fail("skipisseek", key, w.Pos(dfn.Pos()), "Discard does not call SeekPos", nil)
+		default:
+			r.OK("skipisseek", key, w.Pos(dfn.Pos()), "Discard only computes the target and calls SeekPos")
+		}
+	}
+	r.Floor("skipisseek", 1)
 	r.Floor("whomaywrite", 20)
 	r.Floor("errnodata", 5)
 	r.Floor("viareadbytes", 5)
